@@ -11,7 +11,7 @@
    started ones.  [R cs ss]: the bucket state cs represents the specification
    state ss (proofs/C24_proofs.v); it holds for a new database (R_init). *)
 From verif Require Import lib.Base model.C24_F64 model.C24_StoreSpec model.C24 model.C25
-  proofs.C24_proofs proofs.C24_more proofs.C25_proofs.
+  proofs.C24_proofs proofs.C24_more proofs.C25_proofs proofs.C25_exact.
 From Coq Require Import Floats.SpecFloat.
 Open Scope N_scope.
 
@@ -90,6 +90,17 @@ Theorem C25_crash_ok_sound : forall st h acked obs,
     /\ Forall2 res_ok (dump_s st') [d_seq obs; d_cmds obs; d_dirs obs].
 Proof. exact crash_ok_sound. Qed.
 Print Assumptions C25_crash_ok_sound.
+
+(* ... and exactly that: whenever the observed dump shows the state after some
+   prefix containing the acknowledged operations, the acceptor accepts (the
+   run-time oracle demands the property and nothing more). *)
+Theorem C25_crash_ok_exact : forall st h acked obs,
+  crash_ok st h acked obs = true <->
+  exists st' k, (length acked <= k <= length h)%nat
+    /\ st' = spec_exec isort_desc st (firstn k h)
+    /\ Forall2 res_ok (dump_s st') [d_seq obs; d_cmds obs; d_dirs obs].
+Proof. exact crash_ok_exact. Qed.
+Print Assumptions C25_crash_ok_exact.
 
 (* ... and it admits the behaviours of the model: whatever the kill point and
    the recovery choice, the acknowledged results and the dump of the reopened
